@@ -11,7 +11,7 @@ package memefish
 // Vocabulary
 //
 // TokOK: the current token lies inside the buffer and ends where the lexer stands.
-// @ spec TokOK(l) = 0 <= l.Token.Pos && l.Token.Pos <= l.Token.End && l.Token.End == l.pos && (l.Token.Kind == "<eof>" ==> l.Token.Pos == len(l.Buffer)) && (l.Token.Kind == ">>" ==> l.Token.End == l.Token.Pos + 2)
+// @ spec TokOK(l) = 0 <= l.Token.Pos && l.Token.Pos <= l.Token.End && l.Token.End == l.pos && (l.Token.Kind == "<eof>" ==> l.Token.Pos == len(l.Buffer)) && (l.Token.Kind == ">>" ==> l.Token.End == l.Token.Pos + 2) && (l.Token.Kind != ">" ==> len(l.Token.Raw) == l.Token.End - l.Token.Pos)
 // a token that is neither <eof> nor <bad> nor the zero token is not empty (this is what makes the parser advance)
 // @ spec nonEmptyTok(l) = l.Token.Kind == "<eof>" || l.Token.Kind == "" || l.Token.Pos < l.Token.End || (l.Token.Kind == "<bad>" && l.Token.Pos == len(l.Buffer))
 // @ spec ParserInv0(p) = p != nil && p.Lexer != nil && LexInv(p.Lexer) && TokOK(p.Lexer) && nonEmptyTok(p.Lexer)
@@ -291,9 +291,10 @@ package memefish
 // @   requires ParserInv(p)
 // @   ensures ParserInv(p) && (p.Lexer == old(p.Lexer) || fresh(p.Lexer)) && p.Lexer.File == old(p.Lexer.File)
 // @   ensures[C09] errs: len(p.errors) >= old(len(p.errors))
+// @   ensures[C04] wf: wf(result)
 // @   panics never
 // @   modifies p.Lexer, p.errors, cur(p.Lexer).pos, cur(p.Lexer).Token.*, cur(p.Lexer).lastTokenKind, cur(p.Lexer).dotIdent, p.Lexer.File.lines
-// @   loop 0 invariant ParserInv(p) && (p.Lexer == old(p.Lexer) || fresh(p.Lexer)) && p.Lexer.File == old(p.Lexer.File) && len(p.errors) >= old(len(p.errors))
+// @   loop 0 invariant ParserInv(p) && (p.Lexer == old(p.Lexer) || fresh(p.Lexer)) && p.Lexer.File == old(p.Lexer.File) && len(p.errors) >= old(len(p.errors)) && wf(nodes)
 // @   loop 0 decreases 2 * (len(p.Lexer.Buffer) - p.Lexer.Token.Pos) + ite(p.Lexer.Token.Kind == ";", 0, 1)
 
 // a recovering production: the parser schema, and no panic escapes
@@ -313,7 +314,7 @@ package memefish
 // ---------------------------------------------------------------------------------------------
 // Public entry points (C03: never panic, typed error; C09: nil error iff clean and fully consumed)
 
-// @ spec FreshParser(p) = p != nil && p.Lexer != nil && p.Lexer.File != nil && p.Lexer.pos == 0 && p.Lexer.Token.End == 0 && isNil(p.Lexer.File.lines) && len(p.errors) == 0 && p.Lexer.Token.Pos == 0 && p.Lexer.Token.Kind == ""
+// @ spec FreshParser(p) = p != nil && p.Lexer != nil && p.Lexer.File != nil && p.Lexer.pos == 0 && p.Lexer.Token.End == 0 && isNil(p.Lexer.File.lines) && len(p.errors) == 0 && p.Lexer.Token.Pos == 0 && p.Lexer.Token.Kind == "" && len(p.Lexer.Token.Raw) == 0
 
 // @ schema entry memefish\.\(\*Parser\)\.Parse\w+
 // @   props C03 C09
@@ -321,6 +322,7 @@ package memefish
 // @   ensures[C03] typed: result1 == nil || (typeIs(result1, "memefish.MultiError") && len(p.errors) >= 1)
 // @   ensures[C09] clean: result1 == nil ==> len(p.errors) == 0 && p.Lexer.Token.Kind == "<eof>" && p.Lexer.Token.Pos == len(p.Lexer.Buffer)
 // @   ensures[C09] dirty: len(p.errors) > 0 || p.Lexer.Token.Kind != "<eof>" ==> result1 != nil
+// @   ensures[C03,C04] node: notNil(result0) && wf(result0)
 // @   panics never
 // @   modifies p.Lexer, p.errors, cur(p.Lexer).pos, cur(p.Lexer).Token.*, cur(p.Lexer).lastTokenKind, cur(p.Lexer).dotIdent, p.Lexer.File.lines
 
@@ -490,3 +492,18 @@ package memefish
 // @ func memefish.(*Parser).parseChangeStreamFor
 // @   inherit parser
 // @   loop 0 invariant wf(cswt)
+
+// ---------------------------------------------------------------------------------------------
+// parse_helpers.go: the package-level entry points build a fresh parser per call.
+
+// @ func memefish.newParser
+// @   props C03 C09 C18
+// @   ensures result != nil && fresh(result) && FreshParser(result) && fresh(result.Lexer) && fresh(result.Lexer.File) && result.Lexer.Buffer == s
+// @   modifies nothing
+
+// @ schema helper memefish\.Parse\w+
+// @   props C03 C09 C18
+// @   ensures[C03] typed: result1 == nil || typeIs(result1, "memefish.MultiError")
+// @   ensures[C03,C04] node: notNil(result0)
+// @   panics never
+// @   modifies nothing
